@@ -46,6 +46,8 @@ def setup(wd):
     XSH.env["XONSH_SUBPROC_CMD_RAISE_ERROR"] = False
     XSH.env["XONSH_SHOW_TRACEBACK"] = False
     os.chdir(wd)
+    with open(os.path.join(wd, "in.txt"), "w") as fh:
+        fh.write("".join("line%d\n" % i for i in range(40)))
     XSH.env["PWD"] = wd
     # the handlers the session starts with: what every command has to put back
     pristine = [signal.getsignal(getattr(signal, s)) for s in SIGS]
@@ -77,6 +79,8 @@ def render(scn):
                 cmd = "fa"
         if first and fault == "input_missing":
             cmd += " < /nonexistent_verif_input_file"
+        elif first and scn.get("infile"):
+            cmd = ("cat" if kind == "proc" else "fa") + " < in.txt"
         if scn.get("redirect") == k:
             target = "/nonexistent_dir_verif/out.txt" if (fault == "redirect_unopenable" and at == k) else scn.get("rtarget", "out.txt")
             cmd += f" {scn.get('rop', '>')} {target}"
